@@ -89,7 +89,7 @@ fn c06_case<T: Elem>(ctx: &mut Ctx, shape: (usize, usize), cap: CapClass, axis: 
     let (cols, rows) = shape;
     let dim = if axis == Axis::Row { rows } else { cols };
     let line_len = if axis == Axis::Row { cols } else { rows };
-    let n_max = dims(ctx, 6, 9);
+    let n_max = dims(ctx, 6, 12);
     let mut idxs: Vec<usize> = if big { vec![0, 1, dim / 2, dim.saturating_sub(1), dim, dim + 1] } else { (0..=dim + 1).collect() };
     idxs.push(usize::MAX);
     idxs.sort_unstable();
@@ -173,7 +173,7 @@ fn c06_case<T: Elem>(ctx: &mut Ctx, shape: (usize, usize), cap: CapClass, axis: 
 }
 
 pub fn run_c06(ctx: &mut Ctx) {
-    let n = dims(ctx, 6, 9);
+    let n = dims(ctx, 6, 12);
     for shape in shapes(n) {
         for cap in [CapClass::Exact, CapClass::ReservedExact, CapClass::Spare, CapClass::Partial] {
             for axis in [Axis::Row, Axis::Col] {
@@ -532,7 +532,7 @@ fn c07_case<T: Elem>(ctx: &mut Ctx, shape: (usize, usize), axis: Axis, cap: CapC
 }
 
 pub fn run_c07(ctx: &mut Ctx) {
-    let n = dims(ctx, 6, 9);
+    let n = dims(ctx, 6, 11);
     for shape in shapes(n) {
         for axis in [Axis::Row, Axis::Col] {
             for cap in [CapClass::Exact, CapClass::Spare] {
